@@ -374,6 +374,31 @@ def correspond(pc: PropCheck, res: Result, cases: List[Tuple[str, str]], chunk=2
     return bad, viol
 
 
+def judge_defaults(triples, impl):
+    """a call that omits its optional parameters behaves exactly like the call with the documented default values
+    written out (the implementation against itself, op by op)"""
+    from harness.rfsession import expand_defaults, NET_DEFAULTS
+    out = []
+    for l, io, mo in triples:
+        if " dflt " not in l:
+            continue
+        head, rest = l.split(" ", 3)[:3], l.split(" ", 3)[3]
+        ops = []
+        for op in rest.split(" ; "):
+            t = op.split()
+            ops.append(" ".join(t[:1] + expand_defaults(t[1:], NET_DEFAULTS if l.startswith("net ") else None))
+                       if len(t) > 1 and t[1] == "dflt" else op)
+        explicit = " ".join(head) + " " + " ; ".join(ops)
+        io2 = impl(explicit)
+        if io2 != io:
+            a, b = io.split(" ; "), io2.split(" ; ")
+            k = next((i for i, (x, y) in enumerate(zip(a, b)) if x != y), min(len(a), len(b)))
+            out.append(Finding(l, f"op {k} `{rest.split(' ; ')[k] if k < len(ops) else '?'}`: with its optional parameters omitted the call "
+                                  f"behaves differently from `{ops[k] if k < len(ops) else '?'}` (documented defaults): "
+                                  f"{a[k].split(' ~ ')[0] if k < len(a) else '-'} vs {b[k].split(' ~ ')[0] if k < len(b) else '-'}", {"op_index": k}))
+    return out
+
+
 def first_diff(io: str, mo: str) -> str:
     a, b = io.split(" ; "), mo.split(" ; ")
     for k, (x, y) in enumerate(zip(a, b)):
